@@ -2,7 +2,8 @@
 //
 // Part "order": a generated node set (labels, weights, hash/score-function pair) is loaded
 // into hrw.RendezvousHash objects in two different insertion orders. For ALL 65 536
-// four-hex-digit keys, the 256 two-digit keys the CA store uses and generated long keys the
+// four-hex-digit keys, the 256 two-digit keys the CA store uses and generated long keys (up to
+// 512 key bytes; labels up to ~230 bytes) the
 // ordered list is compared with the order given by a reference score the harness computes
 // itself, the two insertion orders must agree, removing a drawn node / adding a new node must
 // only delete / insert that node, and on a key subset the same is checked for EVERY single
